@@ -16,7 +16,7 @@ import toml_text as T
 
 PROP = "C01"
 COQ_PROPS = "Props/C01.v"
-COQ_PROPS_EXTRA = ["Props/C01tokens.v", "Props/C01doc.v", "Props/C01front.v"]
+COQ_PROPS_EXTRA = ["Props/C01tokens.v", "Props/C01doc.v", "Props/C01front.v", "Props/C01front2.v"]
 THEOREMS = [
     "C01_classes: the byte classes generated from the Rust source equal the ABNF classes (all 256 bytes each)",
     "C01_ws_spec / C01_comment_spec / C01_newline_spec ...: token-level maximal-munch characterisations (see Props/C01.v)",
